@@ -5130,7 +5130,8 @@ func readOfficialHeader(buf []byte) (size uint32, containerTyper func(index uint
 	}
 	cf := func(index uint, card int) (newType byte) {
 		newType = containerBitmap
-		if card < ArrayMaxSize {
+		// the official format stores containers of up to 4096 values as arrays
+		if card <= ArrayMaxSize {
 			newType = containerArray
 		}
 		return newType
